@@ -1,5 +1,5 @@
 (* C13 — Context scoping and cleanups: layered visibility, LIFO exactly-once cleanup. *)
-From BV Require Import Base Context ContextProofs.
+From BV Require Import Base Status Rollup Runner RunnerCleanup Context ContextProofs.
 From Coq Require Import Permutation.
 
 Theorem attribute_visible_after_set :
@@ -130,3 +130,13 @@ Example execute_steps_with_a_failing_nested_step :
   exec_case (1, 1, [mkNested 10 0 true; mkNested 0 11 false; mkNested 12 12 true])
   = ([(10, 0); (0, 11)], true, (1, 1)).
 Proof. vm_compute. reflexivity. Qed.
+
+(* runner side: when a cleanup of a scenario's own scope raises, the scenario ends in status error
+   and counts as failed, whatever its steps and hooks did (the run then fails: C01) *)
+Theorem a_raising_cleanup_fails_the_owning_scenario :
+  forall cfg st id all_steps oe eff own st' res fld ev,
+    run_scenario cfg st id all_steps oe eff own = (st', res, fld, ev) ->
+    existsb is_raising_cleanup ev = true ->
+    sr_status res = Some Status.error /\ fld = true.
+Proof. exact raising_cleanup_fails_its_scenario. Qed.
+Print Assumptions a_raising_cleanup_fails_the_owning_scenario.
